@@ -157,12 +157,65 @@ func init() {
 	reg("(reflect.Value).Type", "", func(f *FuncCtx, st *State, call *ast.CallExpr, _ ast.Expr, r *Term) []Term {
 		use(f, "reflect.Value.Type returns the dynamic type; panics on the zero Value")
 		f.panicIf(st, "(= (rv_kind "+r.S+") 0)", f.site("reflect.Type"))
+		st.assume("(= (type_kind (rv_typ " + r.S + ")) (rv_kind " + r.S + "))")
+		st.assume("(not (= (rv_typ " + r.S + ") 0))")
 		return []Term{{S: "(rv_typ " + r.S + ")", Sort: SInt, GoT: f.typeOf(call)}}
 	})
 	reg("(reflect.Type).String", "", func(f *FuncCtx, st *State, call *ast.CallExpr, _ ast.Expr, r *Term) []Term {
 		use(f, "reflect.Type.String: type_name(t); type_name(t)==\"time.Time\" iff t is time.Time (axiom in trusted/prelude)")
 		st.assume(fmt.Sprintf("(= (= (type_name %s) %s) (= %s %d))", r.S, f.w.strLit("time.Time"), r.S, f.w.typeID(f.w.timeType())))
 		return []Term{{S: "(type_name " + r.S + ")", Sort: SStr, GoT: f.typeOf(call)}}
+	})
+	reg("(reflect.Type).Kind", "", func(f *FuncCtx, st *State, call *ast.CallExpr, _ ast.Expr, r *Term) []Term {
+		use(f, "reflect.Type.Kind: type_kind(t); for t = v.Type() it equals v.Kind()")
+		return []Term{{S: "(type_kind " + r.S + ")", Sort: SInt, GoT: f.typeOf(call)}}
+	})
+	reg("(reflect.Type).Elem", "", func(f *FuncCtx, st *State, call *ast.CallExpr, _ ast.Expr, r *Term) []Term {
+		k := "(type_kind " + r.S + ")"
+		f.panicIf(st, "(not (or (= "+k+" 17) (= "+k+" 18) (= "+k+" 21) (= "+k+" 22) (= "+k+" 23)))", f.site("reflect.Type.Elem"))
+		return []Term{{S: "(type_elem " + r.S + ")", Sort: SInt, GoT: f.typeOf(call)}}
+	})
+	reg("(reflect.Value).FieldByName", "", func(f *FuncCtx, st *State, call *ast.CallExpr, _ ast.Expr, r *Term) []Term {
+		use(f, "reflect.Value.FieldByName: rv_field(v, name) (zero Value when absent); panics unless Kind is Struct")
+		n := arg(f, st, call, 0)
+		f.panicIf(st, "(not (= (rv_kind "+r.S+") 25))", f.site("reflect.FieldByName"))
+		return []Term{{S: "(rv_field " + r.S + " " + n.S + ")", Sort: SRV, GoT: f.typeOf(call)}}
+	})
+	reg("(reflect.Value).Index", "", func(f *FuncCtx, st *State, call *ast.CallExpr, _ ast.Expr, r *Term) []Term {
+		use(f, "reflect.Value.Index: rv_index(v, i); panics unless Kind is Array/Slice/String and 0 <= i < Len")
+		i := arg(f, st, call, 0)
+		if i.Sort != SInt {
+			unsup("reflect.Index in bv mode")
+		}
+		k := "(rv_kind " + r.S + ")"
+		f.panicIf(st, "(not (or (= "+k+" 17) (= "+k+" 23) (= "+k+" 24)))", f.site("reflect.Index.kind"))
+		f.panicIf(st, "(or (< "+i.S+" 0) (>= "+i.S+" (rv_len "+r.S+")))", f.site("reflect.Index.range"))
+		return []Term{{S: "(rv_index " + r.S + " " + i.S + ")", Sort: SRV, GoT: f.typeOf(call)}}
+	})
+	reg("(reflect.Value).Len", "", func(f *FuncCtx, st *State, call *ast.CallExpr, _ ast.Expr, r *Term) []Term {
+		use(f, "reflect.Value.Len: rv_len(v) >= 0; panics unless Kind is Array/Chan/Map/Slice/String")
+		k := "(rv_kind " + r.S + ")"
+		f.panicIf(st, "(not (or (= "+k+" 17) (= "+k+" 18) (= "+k+" 21) (= "+k+" 23) (= "+k+" 24)))", f.site("reflect.Len"))
+		st.assume("(>= (rv_len " + r.S + ") 0)")
+		return []Term{{S: "(rv_len " + r.S + ")", Sort: SInt, GoT: f.typeOf(call)}}
+	})
+	reg("(reflect.Value).MapIndex", "", func(f *FuncCtx, st *State, call *ast.CallExpr, _ ast.Expr, r *Term) []Term {
+		use(f, "reflect.Value.MapIndex: rv_mapindex(m, key) (zero Value when absent); panics unless Kind is Map or the key is not assignable")
+		k := arg(f, st, call, 0)
+		f.panicIf(st, "(not (= (rv_kind "+r.S+") 21))", f.site("reflect.MapIndex.kind"))
+		f.declareFun("rv_keyok", []string{SRV, SRV}, SBool)
+		f.panicIf(st, "(not (rv_keyok "+r.S+" "+k.S+"))", f.site("reflect.MapIndex.key"))
+		return []Term{{S: "(rv_mapindex " + r.S + " " + k.S + ")", Sort: SRV, GoT: f.typeOf(call)}}
+	})
+	reg("(reflect.Value).SetMapIndex", "", func(f *FuncCtx, st *State, call *ast.CallExpr, _ ast.Expr, r *Term) []Term {
+		use(f, "reflect.Value.SetMapIndex(m, key, val): panics unless Kind is Map, the map is non-nil and key/val are assignable to the map's key/element types; writes exactly the slot rv_mapslot(m, key) (ghost store $loc) and nothing else")
+		k, v := arg(f, st, call, 0), arg(f, st, call, 1)
+		f.panicIf(st, "(not (= (rv_kind "+r.S+") 21))", f.site("reflect.SetMapIndex.kind"))
+		f.declareFun("rv_mapset_ok", []string{SRV, SRV, SRV}, SBool)
+		f.panicIf(st, "(not (rv_mapset_ok "+r.S+" "+k.S+" "+v.S+"))", f.site("reflect.SetMapIndex.types"))
+		cur := f.ghostTerm(st, "$loc")
+		st.ghost["$loc"] = Term{S: "(store " + cur.S + " (rv_mapslot " + r.S + " " + k.S + ") " + v.S + ")", Sort: cur.Sort}
+		return nil
 	})
 	reg("(reflect.Kind).String", "", func(f *FuncCtx, st *State, call *ast.CallExpr, _ ast.Expr, r *Term) []Term {
 		f.declareFun("kind_name", []string{SInt}, SStr)
@@ -184,8 +237,9 @@ func init() {
 		return []Term{{S: b, Sort: SInt, GoT: f.typeOf(call)}}
 	})
 	reg("(reflect.Value).Elem", "", func(f *FuncCtx, st *State, call *ast.CallExpr, _ ast.Expr, r *Term) []Term {
-		use(f, "reflect.Value.Elem: rv_elem(v) for Kind Pointer/Interface (zero Value when nil); panics for other kinds")
+		use(f, "reflect.Value.Elem: rv_elem(v) for Kind Pointer/Interface (zero Value when nil); the element of a pointer is addressable and settable; panics for other kinds")
 		f.panicIf(st, "(not (or (= (rv_kind "+r.S+") 22) (= (rv_kind "+r.S+") 20)))", f.site("reflect.Elem"))
+		st.assume("(=> (= (rv_kind " + r.S + ") 22) (and (rv_canset (rv_elem " + r.S + ")) (rv_canaddr (rv_elem " + r.S + "))))")
 		return []Term{{S: "(rv_elem " + r.S + ")", Sort: SRV, GoT: f.typeOf(call)}}
 	})
 	reg("(reflect.Value).IsNil", "", func(f *FuncCtx, st *State, call *ast.CallExpr, _ ast.Expr, r *Term) []Term {
@@ -208,6 +262,8 @@ func init() {
 			f.panicIf(st, "(not (rv_canset "+r.S+"))", f.site("reflect."+name+".canset"))
 			if lo > 0 {
 				f.panicIf(st, "(not "+kindIn(r.S, lo, hi)+")", f.site("reflect."+name+".kind"))
+			} else {
+				f.panicIf(st, "(not (rv_assignable "+r.S+" "+v.S+"))", f.site("reflect."+name+".assignable"))
 			}
 			cur := f.ghostTerm(st, "$loc")
 			nv := payload(f, r.S, v)
